@@ -315,8 +315,38 @@ def check_chunknz(res, facts):
                 continue
             seen.add(key)
             clamped = isinstance(e, tuple) and e[0] == "call" and e[1] == "max" and len(e[2]) == 2 and any(isinstance(x, int) and x >= 1 for x in e[2])
+            guarded = False
+            if not clamped:
+                # `if len == 0 { ...; return }` before the split: the site is control dependent on the non-zero side of a
+                # test of this very length
+                cd = DF.control_deps(f)
+                todo, seen_sw = [bb], set()
+                while todo:
+                    x = todo.pop()
+                    for (sw, succ) in cd.get(x, ()):
+                        if (sw, succ) in seen_sw:
+                            continue
+                        seen_sw.add((sw, succ))
+                        todo.append(sw)
+                        tt = f.bbs[sw]["t"]
+                        c = norm(DF.lift_captures(facts, f, DF.expr(f, tt["o"], depth=30)))
+                        nonzero_side = None
+                        if c == e and tt.get("vals") == [0]:
+                            nonzero_side = (succ == tt["else"])
+                        elif isinstance(c, tuple) and c[0] == "bin" and len(c) == 4 and e in (c[2], c[3]) and tt.get("vals") == [0]:
+                            other = c[3] if c[2] == e else c[2]
+                            truth = (succ == tt["else"])
+                            op = c[1] if c[2] == e else {"Lt": "Gt", "Gt": "Lt", "Le": "Ge", "Ge": "Le"}.get(c[1], c[1])
+                            if other == 0:
+                                nonzero_side = (op in ("Ne", "Gt") and truth) or (op in ("Eq", "Le") and not truth)
+                            elif other == 1:
+                                nonzero_side = (op == "Ge" and truth) or (op == "Lt" and not truth)
+                        if nonzero_side:
+                            guarded = True
             if clamped:
                 rule.ok(key, "length %s" % txt[:80], f.loc)
+            elif guarded:
+                rule.ok(key, "length %s, split reached only on the non-zero side of a test of this length" % txt[:80], f.loc)
             else:
                 rule.bad(key, "the chunk length %s depends on the number of threads and is not clamped to at least 1: for an empty input (or fewer elements than the expression assumes) it is 0 and %s panics -- only in builds with the parallel feature" % (txt[:100], t["f"]["name"]), f.loc)
 
